@@ -24,6 +24,7 @@ type PropConfig struct {
 	Exclude   []string `json:"exclude"`   // optional regexps: obligations whose name matches belong to another property's contract on a shared function
 	Labels    []string `json:"labels"`    // optional regexps: only obligations whose name matches one of them count
 	Det       []string `json:"det"`       // functions subject to the determinism typestate analysis
+	NoPanic   []string `json:"no_panic"`  // functions that must be panic-free as a whole (recovery handlers): every panic obligation in them is a contract obligation, whatever its kind
 	Unstable  []string `json:"unstable"`  // obligations whose proof takes close to the timeout: never claimed (kept undecided), so that load cannot turn them into alarms
 	Undecided []string `json:"undecided"` // parts of the property not decided (free text, copied to evidence)
 	Trusted   []string `json:"trusted"`
@@ -418,6 +419,10 @@ func cmdCheck(args []string) {
 			} else if g.Class != "panic" && len(baseline) > 0 {
 				nClaimed++
 				report(g, "new contract obligation not discharged")
+			} else if len(baseline) > 0 && inStrings(cfg.NoPanic, g.Func) {
+				// a function the property needs to be panic-free (e.g. the deferred handler that turns panics into errors)
+				nClaimed++
+				report(g, "the function must not panic (it was proved panic-free on the unchanged tree); a new panic site is not discharged")
 			} else if k := panicKind(n); len(baseline) > 0 && freeOfKind(baseline, g.Func, k) {
 				// the function was free of this kind of panic on the unchanged tree (every index / slice / division /
 				// map-store / explicit-panic site it had was discharged, or it had none): the group "<function>: no <kind>
@@ -713,4 +718,13 @@ func freeOfKind(baseline map[string]BaselineEntry, fn, kind string) bool {
 		}
 	}
 	return known // the function must have been under the sweep already
+}
+
+func inStrings(xs []string, x string) bool {
+	for _, y := range xs {
+		if y == x {
+			return true
+		}
+	}
+	return false
 }
